@@ -11,10 +11,13 @@ PRIMES = [3, 5, 7, 11, 13, 17, 19, 23, 29, 31, 37, 41, 43, 47, 53, 59]
 
 
 class F:
-    def __init__(self, name, params, outputs, defaults=None, bound=None, renamed=()):
+    def __init__(self, name, params, outputs, defaults=None, bound=None, renamed=(), out_orig=None):
         self.name, self.params, self.outputs = name, list(params), list(outputs)
         self.defaults, self.bound = dict(defaults or {}), dict(bound or {})
         self.renamed = set(renamed)  # pipeline-level names that differ from the Python parameter names
+        # out_orig: the output names given to PipeFunc *before* renames (same length as outputs); the
+        # pipeline-level names are `outputs`, obtained through PipeFunc(renames=...)
+        self.out_orig = list(out_orig) if out_orig else None
 
 
 def form(fi, oi, args):
@@ -35,7 +38,7 @@ def make_functions(template, log, cache=None, fail_at=None, coeff_shift=0):
                 log.append(_fs.name)
                 nth = len(log)
             if fail_at is not None:
-                fail_at(_fs.name, nth)
+                fail_at(_fs.name, nth, args)
             outs = [form(_fi + coeff_shift, oi, args) for oi in range(len(_fs.outputs))]
             return tuple(outs) if len(outs) > 1 else outs[0]
 
@@ -48,6 +51,9 @@ def make_functions(template, log, cache=None, fail_at=None, coeff_shift=0):
         kw = {}
         if fs.renamed:
             kw["renames"] = {py[p]: p for p in fs.renamed}
+        if fs.out_orig:
+            on = tuple(fs.out_orig) if len(fs.out_orig) > 1 else fs.out_orig[0]
+            kw.setdefault("renames", {}).update({o: n for o, n in zip(fs.out_orig, fs.outputs) if o != n})
         if cache is not None:
             kw["cache"] = bool(cache(fs.name)) if callable(cache) else bool(cache)
         funcs.append(PipeFunc(ns[fs.name], on, bound=dict(fs.bound) or None, **kw))
@@ -189,6 +195,11 @@ R = {
     "R6": [F("f", ["a"], ["b"]), F("g", ["c"], ["d"])],
     "R7": [F("f", ["a", "b"], ["p", "q"]), F("g", ["p"], ["r"]), F("h", ["q", "r"], ["s"])],
     "R8": [F("f", ["a2", "b"], ["c"], renamed={"a2"}), F("g", ["c", "x2"], ["d"], renamed={"x2"}, defaults={"x2": 4}), F("h", ["d", "a2"], ["e"], renamed={"d"})],
+    "R10": [F("f", ["a", "b"], ["p", "q"], out_orig=["o_p", "o_q"]), F("g", ["p", "a"], ["r"]), F("h", ["q", "r"], ["s"])],
+    "R11": [F("f", ["a", "b"], ["p", "q"], out_orig=["q", "p"]), F("g", ["p"], ["r"]), F("h", ["q", "r", "p"], ["s"])],
+    "R12": [F("f", ["a"], ["b"]), F("g", ["b"], ["c"]), F("h", ["c", "x"], ["d"])],
+    "R13": [F("f", ["a", "b"], ["c"]), F("g", ["a", "b", "c"], ["d"]), F("h", ["c", "d", "x"], ["e"])],
+    "R14": [F("f", ["a"], ["b"]), F("g", ["b", "a"], ["c"]), F("h", ["c", "b"], ["d"]), F("k", ["d", "x"], ["e"])],
     "R9": [F("f", ["a"], ["b"], bound={"a": 5}), F("g", ["b", "c"], ["d"], defaults={"c": 2}, bound={"c": 8}), F("h", ["d", "a"], ["e"])],
 }
 
